@@ -11,7 +11,7 @@ open Pyoda Pyoda.Text
 
 /-- LocalDatePattern.iso through the generic theorem: every valid ISO date -/
 theorem isoDate_generic_roundtrip (y m d : Int) (hv : validDate y m d) :
-    parseCompiled .date ⟨invariantCulture, 5248, isoDateSteps⟩ (outSteps (dateGetter y m d) isoDateSteps) = .ok (some [y, m, d]) := by
+    parseCompiled .date ⟨invariantCulture, 5248, isoDateSteps⟩ (outSteps invariantCulture 5248 (dateGetter y m d) isoDateSteps) = .ok (some [y, m, d]) := by
   have hv' := hv
   obtain ⟨h1, h2, h3, h4, h5, h6⟩ := hv
   have hb := daysInMonth_bounds y m
@@ -33,7 +33,7 @@ theorem isoDate_generic_roundtrip (y m d : Int) (hv : validDate y m d) :
     have hu : (5248 : Nat) = (F.year ||| F.monthNum ||| F.dayOfMonth) := by decide
     simp only [dateValue, dateValueT, hu, if_true, isoDateSteps, setSteps, setStep, Bucket.set, dateGetter]
     simp (config := { decide := true }) only [if_false, isoDateValue_valid y m d hv', Option.map]
-  have hne : outSteps (dateGetter y m d) isoDateSteps ≠ [] := by
+  have hne : outSteps invariantCulture 5248 (dateGetter y m d) isoDateSteps ≠ [] := by
     simp only [isoDateSteps, outSteps, outStep]
     obtain ⟨_, _, hne⟩ := numOut_last 4 (dateGetter y m d .year)
     intro h
@@ -42,7 +42,7 @@ theorem isoDate_generic_roundtrip (y m d : Int) (hv : validDate y m d) :
 
 /-- the long Offset pattern `+HH:mm:ss` through the generic theorem: every offset within ±18 h -/
 theorem offsetLong_generic_roundtrip (s : Int) (h0 : -64800 ≤ s) (h1 : s ≤ 64800) :
-    parseCompiled .offset ⟨invariantCulture, 29, offsetLongSteps⟩ (outSteps (offsetGetter s) offsetLongSteps) = .ok (some [s]) := by
+    parseCompiled .offset ⟨invariantCulture, 29, offsetLongSteps⟩ (outSteps invariantCulture 29 (offsetGetter s) offsetLongSteps) = .ok (some [s]) := by
   obtain ⟨eh, em, es⟩ := off_accessors s h0 h1
   have hA : (s.natAbs : Int) ≤ 64800 := by omega
   have hsign : offsetGetter s .sign = (if s < 0 then 1 else 0) := by
@@ -79,7 +79,7 @@ theorem offsetLong_generic_roundtrip (s : Int) (h0 : -64800 ≤ s) (h1 : s ≤ 6
       · have : ¬ ((0 : Int) = 1) := by decide
         simp only [hs, if_false, this, decide_false, Bool.false_eq_true]; omega
     rw [hv]; rfl
-  have hne : outSteps (offsetGetter s) offsetLongSteps ≠ [] := by
+  have hne : outSteps invariantCulture 29 (offsetGetter s) offsetLongSteps ≠ [] := by
     simp [offsetLongSteps, outSteps, outStep]
   exact (pattern_roundtrip .offset ⟨invariantCulture, 29, offsetLongSteps⟩ (offsetGetter s) [s] offsetLong_delimited hval hr hne).2
 
